@@ -31,6 +31,85 @@ pub struct Case {
 
 pub struct C03;
 
+/// Two messages for one stream arrive in ONE read or in two; the acknowledgement of the first
+/// cannot be written (the writer accepts nothing), run() is dropped there and called again once the
+/// writer is free: how the bytes were cut into reads must not decide whether the second message is
+/// seen. (What becomes of the first message's PUBACK is C08's business.)
+fn burst_with_run_dropped_in_a_blocked_write(second_qos: u8) -> Option<Failure> {
+    use super::common::*;
+    use crate::api::*;
+    use crate::refcodec as rc;
+    use crate::world::World;
+    let plan = WritePlan::default();
+    let mut items = vec![];
+    for one_read in [true, false] {
+        let mut w = World::new();
+        if connect_and_run(&mut w, ConnectSpec::default(), &default_connack(), &plan).is_err() {
+            return None;
+        }
+        let mut tr = Tracker::new();
+        tr.skip_existing(&mut w);
+        let s = w.start_op(0, OpSpec::Subscribe(tagged_subscribe(0, 1)))?;
+        settle(&mut w, &plan, true);
+        tr.update(&mut w);
+        let (spid, sid) = (tr.pid(s)?, tr.sub_id(s)?);
+        feed_packet(&mut w, &rc::Packet::Suback(rc::AckList { pid: spid, reasons: vec![0], ..Default::default() }), &rc::Form::canonical());
+        settle(&mut w, &plan, true);
+        let stream = w.make_stream(s)?;
+        let msg = |qos: u8, pid: u16, tag: u8| {
+            rc::encode(
+                &rc::Packet::Publish(rc::Publish { qos, pid: (qos > 0).then_some(pid), topic: "c03/burst".into(), payload: vec![tag; 3], subscription_ids: vec![sid], ..Default::default() }),
+                &rc::Form::canonical(),
+            )
+        };
+        // the writer accepts nothing from now on
+        w.writer.grant(0);
+        w.tick();
+        let (a, b) = (msg(1, 51, 1), msg(second_qos, 52, 2));
+        if one_read {
+            let mut both = a.clone();
+            both.extend(b.clone());
+            w.reader.feed(both);
+            settle(&mut w, &plan, true);
+        } else {
+            w.reader.feed(a);
+            settle(&mut w, &plan, true);
+        }
+        if w.run_result.is_some() || !w.ctx_running() {
+            return None;
+        }
+        // run() is dropped while the PUBACK of the first message waits for the writer
+        if !w.cancel_run() {
+            return None;
+        }
+        w.writer.unlimited();
+        w.tick();
+        if !w.start_run() {
+            return None;
+        }
+        settle(&mut w, &plan, true);
+        if !one_read {
+            w.reader.feed(b);
+            settle(&mut w, &plan, true);
+        }
+        if let Some(p) = first_panic(&w) {
+            return Some(Failure { sig: format!("PANIC/{}", panic_sig(&p)), msg: p });
+        }
+        w.drain_stream(stream);
+        items.push((w.streams[stream].items.len(), w.reader.unread(), w.run_result.clone()));
+    }
+    if items[0] != items[1] {
+        return Some(Failure {
+            sig: "C03/observables-depend-on-chunking/run-dropped-in-a-blocked-write".into(),
+            msg: format!(
+                "two messages, the first one's PUBACK blocked, run() dropped and called again: arriving in one read -> {} stream items ({} bytes unread, run {:?}); arriving in two reads -> {} stream items ({} bytes unread, run {:?})",
+                items[0].0, items[0].1, items[0].2, items[1].0, items[1].1, items[1].2
+            ),
+        });
+    }
+    None
+}
+
 fn transient_error_then_run_again(cut: usize, kind: usize) -> Option<Failure> {
     use super::common::*;
     use crate::api::*;
@@ -333,6 +412,11 @@ impl Property for C03 {
                 return o;
             }
             o.class("read-error-inside-a-packet-then-run-again");
+            if let Some(f) = burst_with_run_dropped_in_a_blocked_write((h / 420 % 3) as u8) {
+                o.fail = Some(f);
+                return o;
+            }
+            o.class("burst-with-run-dropped-in-a-blocked-write");
         }
         let cfg_ref = SimCfg::default();
         let reference = run(&scenario(case, ChunkPlan::PerPacket, true), &cfg_ref);
